@@ -17,7 +17,9 @@ LEVEL = "exploration"
 RULE = (
     "histories (<= 12 ops) on crops of 1..8 batches over {re-sow same shape, "
     "Crop.grow(ids), xyzpy.grow(i), grow_missing, change the set of settings "
-    "on which the function fails (side file read by the function), delete "
+    "on which the function fails and the exception it raises there "
+    "(FlakyError / StopIteration / KeyError / ValueError / EOFError; side "
+    "file read by the function), delete "
     "result i, corrupt result i (empty / half / garbage / wrong length) + "
     "check_bad, check_bad alone, reload the Crop, query}.  Model = (B, set of "
     "finished ids).  After EVERY op: num_sown_batches == B, num_results == "
@@ -64,6 +66,7 @@ def run_case(case):
                           crops.read_batch(root, name, i)] for i in ids}
         finished = set()
         failing = set()
+        fail_exc = "flaky"
         cur_kind = [kind]
         kind_of = {}
         interesting = False
@@ -123,8 +126,9 @@ def run_case(case):
             stats[o] += 1
             if o == "set_fail":
                 failing = {v % N for v in op["vals"]}
+                fail_exc = op.get("exc", "flaky")
                 with open(failfile, "w") as f:
-                    json.dump(sorted(failing), f)
+                    json.dump({"vals": sorted(failing), "exc": fail_exc}, f)
             elif o in ("grow", "grow_one", "grow_missing"):
                 if o == "grow":
                     seq = []
@@ -147,16 +151,25 @@ def run_case(case):
                     will_finish.append(i)
                 models.LOG.clear()
                 raised = False
+                # whatever the function raises (a StopIteration reaches the
+                # caller as RuntimeError from the generator, PEP 479) the
+                # grow must not return normally
+                expected = (models.FlakyError,) if fails_at is None or \
+                    fail_exc == "flaky" else (Exception,)
                 try:
-                    with under_test(tag, expect=(models.FlakyError,)):
+                    with under_test(tag, expect=expected):
                         if o == "grow":
                             crop.grow(tuple(seq), verbosity=0)
                         elif o == "grow_one":
                             x.grow(seq[0], crop=crop, verbosity=0)
                         else:
                             crop.grow_missing(verbosity=0)
-                except models.FlakyError:
+                except core.PropertyViolation:
+                    raise
+                except expected:
                     raised = True
+                if fails_at is not None:
+                    stats[f"exc={fail_exc}"] += 1
                 require(raised == (fails_at is not None),
                         "failure-not-propagated" if fails_at is not None
                         else "spurious-failure",
@@ -272,7 +285,10 @@ def strategy(draw):
         st.fixed_dictionaries({"op": st.just("grow_one"), "i": ids}),
         st.fixed_dictionaries({"op": st.just("grow_missing")}),
         st.fixed_dictionaries({"op": st.just("set_fail"),
-                               "vals": st.lists(ids, max_size=3)}),
+                               "vals": st.lists(ids, max_size=3),
+                               "exc": st.sampled_from(
+                                   ["flaky", "flaky", "stop", "key", "value",
+                                    "eof"])}),
         st.fixed_dictionaries({"op": st.just("delete"), "i": ids}),
         st.fixed_dictionaries({"op": st.just("corrupt"), "i": ids,
                                "how": st.sampled_from(
